@@ -480,6 +480,23 @@ def replay(payload):
         print("nothing to replay: %s" % payload.get("no_longer_checks"))
         return False
     c = f["case"]
+    if c.get("nested") == "program":
+        class RecP:
+            fail = 0
+
+            def oracle_fail(self, what, case, observed, expected, cls=None, size=None):
+                if cls is None:
+                    print(what, "observed", observed, "expected", expected)
+                    self.fail += 1
+
+            def count(self, *a, **k):
+                pass
+        rec = RecP()
+        hdr = [(n, k if isinstance(k, str) else [tuple(x) for x in k]) for n, k in c["hdr"]]
+        rows = [tuple(v if not isinstance(v, list) else [tuple(ir) for ir in v] for v in r) for r in c["rows"]]
+        res = [None if r is None else tuple(tuple(x) if isinstance(x, list) else x for x in r) for r in c["resolved"]]
+        check_nested_program(rec, fns, hdr, rows, [tuple(k) for k in c["ops"]], res, [], "replay")
+        return rec.fail == 0
     if c.get("nested"):
         class Rec:
             fail = 0
